@@ -221,6 +221,67 @@ T = {
         "MISSED at first twice: Ordering::then_with and the ordering of hash values were unmodelled, and the oracle had no "
         "obligation about ties; both added (the first version of the obligation alarmed on the clean tree for a record "
         "de-duplicated against a copy with another timestamp and was narrowed to records unique to their side); caught"),
+    "C06-db-rewind-range-delete-other-logs": (
+        "C06", "DatabaseEventLog::rewind issues one `DELETE .. WHERE event_id > (SELECT MAX ..)` whose outer condition is not restricted to the log's owner (crates/database/src/{event_log.rs,entity/event.rs})",
+        "two logs in the same table, the other log has rows stored after the rewind target",
+        ["C06 database part: an operation on one log changed the rows of another log"],
+        "first UNCOVERED (the SQL subset of the table model had only `=`); ordering comparisons, subqueries in any comparison, "
+        "[NOT] EXISTS and INSERT .. SELECT were added to mirsym/sqlmodel.py; caught"),
+    "C06-db-idempotent-insert": (
+        "C06", "EventEntity::insert_events inserts only where no row with the same owner and commit exists (INSERT .. SELECT .. WHERE NOT EXISTS)",
+        "byte-identical events within one log",
+        ["C06 database part: tree in memory has more leaves than the table / rows after apply"],
+        "first UNCOVERED (nested statement text inside a WHERE clause); statements can now be rendered to and parsed from text; caught"),
+    "C07-db-replace-accepts-contains": (
+        "C07", "DatabaseEventLog::replace_all_events verifies with tree.compare and refuses only Unknown",
+        "a replace-all of >= 2 records whose checkpoint is the head of a proper prefix of them",
+        ["C07 database part: replace_all_events succeeds although the checkpoint is not the head of the new events"], "caught at first run"),
+    "C13-db-rewind-autocommit": (
+        "C13", "DatabaseEventLog::rewind runs its deletions outside a transaction (each autocommits)",
+        "a rewind that removes two or more records, the process dying between two deletions",
+        ["C13 database part: after a crash during rewind the log is neither its state before nor after"],
+        "MISSED by the quick tier at first (logs of <= 2 records: a rewind removes at most one); a three-record rewind with "
+        "crash points joined the quick tier; caught"),
+    "C11-device-retrust-revoke-first-only": (
+        "C11", "DeviceReducer::reduce collects trust events in a Vec, a revoke removes only the first matching entry (crates/reducers/src/device.rs)",
+        "a device key trusted twice and revoked once",
+        ["C11 part C: trusted-device set differs from the replay of the device log"],
+        "first INCONCLUSIVE twice over: IndexSet::replace was unmodelled, and the native confirmation compared the server's "
+        "set with the (equally broken) reducer; model added, the native side now recomputes the trusted keys from the scenario; caught"),
+    "C11-verify-device-empty-set-ok": (
+        "C11", "Backend::verify_device returns the last attempt's result, Ok(()) when there is no trusted key (crates/server/src/backend.rs)",
+        "an existing account whose trusted-device set is empty",
+        ["C11 part B: a caller is returned although no trusted key verified the signature"], "caught at first run"),
+    "C12-replace-all-early-return-leaves-snapshot": (
+        "C12", "FileSystemEventLog::replace_all_events returns early for an unchanged log after creating the snapshot (crates/filesystem/src/event_log.rs)",
+        "compacting an already compact folder",
+        ["C12 storage level: compaction leaves a stray file next to the log"],
+        "MISSED at first (only the temporary log file was checked); the directory listing after compaction must equal the one "
+        "before; caught"),
+    "C12-compact-meta-operands-reversed": (
+        "C12", "FolderReducer::compact picks the header's meta before the reduced one (crates/reducers/src/folder.rs)",
+        "a description change before compaction",
+        ["C12 compaction equivalence: meta differs"], "caught at first run"),
+    "C15-commit-proof-chunks-copy": (
+        "C15", "CommitProof decoder builds the proof with chunks(32) + copy_from_slice (crates/core/src/encoding/v1/commit.rs)",
+        "a proof section whose length is not a multiple of 32",
+        ["C15 decode:CommitProof: copy_from_slice length mismatch panic"],
+        "first UNCOVERED (slice::chunks, copy_from_slice unmodelled); models added and validated by the self-test; caught"),
+    "C15-account-url-slice-first-byte": (
+        "C15", "Secret::Account decoder inspects &s[..1] of the website string (crates/vault/src/encoding/secret.rs)",
+        "an empty website string, or one starting with a multi-byte character",
+        ["C15 decode:Secret[byte0=1]: slice index / char boundary panic"], "caught at first run"),
+    "C16-db-paging-skips-rows": (
+        "C16", "sqlite branch of vault_stream reads pages of 8 rows and advances the offset by 9 (crates/integrity/src/vault_integrity.rs)",
+        "a folder with more than 8 secrets",
+        [],
+        "NOT caught: needs at least 9 rows, the check's bound is 2 (quick) / 3 rows; the new builder calls (order_by/limit/offset "
+        "on the stubbed statement) end the path as UNCOVERED.  Outside the stated bounds"),
+    "C16-event-large-payload-chunks": (
+        "C16", "event_integrity hashes payloads above 8192 bytes block-wise and drops the remainder (crates/integrity/src/event_integrity.rs)",
+        "an event record larger than 8 KiB whose length is not a multiple of 8192",
+        [],
+        "NOT caught: needs a payload of more than 8192 bytes, the check's bound is 4 content bytes.  Outside the stated bounds"),
 }
 
 
